@@ -116,9 +116,23 @@ class Geometry:
                 # In the case, a fixed (scalar) depth had been provided, the base class can be
                 # utilized. Otherwise, a more involved reshape of the effective volume is
                 # required.
+                # NOTE: cv2.INTER_AREA is merely conservative, if no axis is refined while
+                # another one is coarsened. Thus, coarsen first, and refine afterwards.
+                coarsened_voxel_volume = cv2.resize(
+                    self.voxel_volume,
+                    tuple(
+                        reversed(
+                            [
+                                min(i, j)
+                                for i, j in zip(fetched_shape, self.voxel_volume.shape)
+                            ]
+                        )
+                    ),
+                    interpolation=cv2.INTER_AREA,  # conservative.
+                )
                 self.cached_voxel_volume = (
                     cv2.resize(
-                        self.voxel_volume,
+                        coarsened_voxel_volume,
                         tuple(reversed(fetched_data.shape[:2])),
                         interpolation=cv2.INTER_AREA,  # conservative.
                     )
